@@ -598,10 +598,35 @@ Definition reset_slots (e : env) (s : st) : st :=
 
 Definition fuel0 : nat := Z.to_nat 4000.
 
+(* A forward-reference slot object that stays reachable after the iteration that created it
+   (through a top-level variable or a just_once row) keeps its own state in Python while the
+   name gets a fresh slot; the model identifies slots by name, so such states are outside the
+   fragment.  [stale_slot d s vs]: some value reachable from vs within d steps is a slot. *)
+Fixpoint stale_slot (d : nat) (s : st) (vs : list value) : bool :=
+  match d with
+  | O => false
+  | S d' =>
+    existsb (fun v =>
+      match v with
+      | VSlot _ => true
+      | VRow h => match nth_error (heap s) h with
+                  | Some c => stale_slot d' s (map snd (c_fields c))
+                  | None => false
+                  end
+      | _ => false
+      end) vs
+  end.
+
+Definition survivors (s : st) : list value :=
+  flat_map (fun f => map snd (f_vars f)) (frames s) ++
+  map (fun nh => VRow (snd nh)) (p_nicks s) ++ map (fun nh => VRow (snd nh)) (p_tables s).
+
 (* one pass of loop_over_templates_until_finished's body, followed by check_slots_filled *)
 Definition iteration (e : env) (stmts : list stmt) (continuing : bool) (s : st) : result st :=
   do '(s1, _) <- run fuel0 e (TStmts stmts continuing) s;
-  if slots_filled s1 then Ok (reset_slots e s1) else dge "references-not-fulfilled".
+  if slots_filled s1 then
+    if stale_slot 4 s1 (survivors s1) then Err Unsupported else Ok (reset_slots e s1)
+  else dge "references-not-fulfilled".
 
 Fixpoint iterations (k : nat) (e : env) (stmts : list stmt) (continuing : bool) (s : st) : result st :=
   match k with
